@@ -493,8 +493,6 @@ def pytest_sessionfinish(session, exitstatus):
                 if any_changes and apply_changes(flag):
                     used_changes += changes[flag]
 
-            report_problems(console)
-
             if used_changes:
                 cr = ChangeRecorder()
                 apply_all(used_changes, cr)
@@ -531,6 +529,8 @@ def pytest_sessionfinish(session, exitstatus):
                     state().storage.remove(name)
                 console().print(f"removed {len(unused_externals)} unused externals\n")
         finally:
+            # also the problems which occurred while the files were written
+            report_problems(console)
             capture.resume_global_capture()
 
         return
